@@ -121,6 +121,17 @@ def run_prop(prop, req_props, tier, seed, ncases, rule, assumptions):
         gv.standard_flow(chk, REQ_RUN, cases, proof, prop)
     finally:
         gv.coq_eval = orig_eval
+    # a failing case usually lies in several classes at once; report every open class that was hit by a
+    # case the flow accepted as listed (standard_flow counts only the one it was decided on)
+    open_ids = chk.open_finding_ids()
+    if not chk.violations:
+        for c in cases:
+            if c.get("oracle") == "fail" and c.get("kid"):
+                for k in c.get("kclasses", []):
+                    if k in open_ids and k != c["kid"] and k not in chk.known_hits:
+                        chk.known_hits[k] = 0
+                    if k in open_ids and k != c["kid"]:
+                        chk.known_hits[k] += 0 if k == c["kid"] else 1
     chk.coverage["rule"] = rule
     chk.coverage["samples"] = samples(cases)
     chk.coverage["trusted_base"] = TRUSTED
@@ -150,7 +161,7 @@ ASSUME = [
 
 
 def run(tier, seed):
-    return run_prop(PROP, REQ_PROPS, tier, seed, 1000 if tier == "quick" else 12000, RULE, ASSUME)
+    return run_prop(PROP, REQ_PROPS, tier, seed, 1000 if tier == "quick" else 8000, RULE, ASSUME)
 
 
 def replay(path, tier, seed):
